@@ -102,6 +102,10 @@ def gen_case(rnd, ctx, maxlen):
     clamp_only = [False]      # the only listener attached is the re-entrant "clamp" listener
     lens = {(i, "kids"): len(init[i]["kids"]) for i in range(n)}
     lens.update({(i, "nums"): len(init[i]["nums"]) for i in range(n)})
+    # containers that were deleted / reset: the delete notification and the default-value notification BOTH hook the new
+    # default value (reported to the coordinator as a candidate finding), so items added to it would be hooked twice;
+    # until the trait is assigned again only whole-value assignments are generated for it
+    frozen = set()
     for _ in range(rnd.randint(2, maxlen)):
         r = rnd.random()
         if r < 0.34:
@@ -122,6 +126,7 @@ def gen_case(rnd, ctx, maxlen):
                              ["Copy", "shallow"]])
             ls = 0
             clamp_only[0] = False
+            frozen.clear()
         else:
             # objects near the root and relevant traits are preferred
             i = rnd.choice([0, 0, 0] + list(range(n)))
@@ -152,10 +157,13 @@ def gen_case(rnd, ctx, maxlen):
                 ln = lens[(i, tr)]
                 ch = rnd.choice(["Set", "Append", "Append", "Insert", "Pop", "SetItem", "SetSame", "Remove", "Clear",
                                  "Extend", "Reverse", "SetSlice", "Reset"])
+                if (i, tr) in frozen and ch != "Reset":
+                    ch = "Set"
                 if ch == "Set":
                     v = [item() for _ in range(rnd.randint(0, 3))]
                     op = ["Set", i, tr, v]
                     lens[(i, tr)] = len(v)
+                    frozen.discard((i, tr))
                 elif ch == "Append":
                     op = ["Append", i, tr, item()]
                     lens[(i, tr)] = ln + 1
@@ -181,6 +189,7 @@ def gen_case(rnd, ctx, maxlen):
                 elif ch == "Reset":
                     op = ["Reset", i, tr, rnd.randint(0, 1)]
                     lens[(i, tr)] = 0
+                    frozen.add((i, tr))
                 elif ch == "SetSlice" and ln:
                     # the items stay, their multiplicities change in ONE event (removed and added overlap)
                     mult = [rnd.choice([0, 1, 1, 2, 3]) for _ in range(ln)]
@@ -192,6 +201,12 @@ def gen_case(rnd, ctx, maxlen):
                     lens[(i, tr)] = ln + 1
             elif tr == "m":
                 ch = rnd.choice(["Set", "DSet", "DSet", "DDel", "DUpdate", "Clear", "Reset"])
+                if (i, "m") in frozen and ch != "Reset":
+                    ch = "Set"
+                if ch == "Reset":
+                    frozen.add((i, "m"))
+                elif ch == "Set":
+                    frozen.discard((i, "m"))
                 if ch == "Set":
                     op = ["Set", i, "m", [[k, rnd.choice(hi)] for k in rnd.sample(KEYS, rnd.randint(0, 3))]]
                 elif ch == "DSet":
@@ -207,6 +222,12 @@ def gen_case(rnd, ctx, maxlen):
             else:
                 ch = rnd.choice(["Set", "SAdd", "SAdd", "SDiscard", "Clear", "Reset", "SInter", "SInter", "SDiff", "SUpdate", "SSym"])
                 args = [[rnd.choice(hi) for _ in range(rnd.randint(0, 3))] for _ in range(rnd.choice([1, 2, 2, 3]))]
+                if (i, "s") in frozen and ch != "Reset":
+                    ch = "Set"
+                if ch == "Reset":
+                    frozen.add((i, "s"))
+                elif ch == "Set":
+                    frozen.discard((i, "s"))
                 if ch == "Set":
                     op = ["Set", i, "s", sorted(set(rnd.choice(hi) for _ in range(rnd.randint(0, 3))))]
                 elif ch == "Reset":
